@@ -616,4 +616,26 @@ theorem checkHistory_iff (ac : Bool) (h : List Cycle) (i : Nat) (outs : List Out
     checkHistory ac h i outs = none ↔ HistorySpec ac h outs :=
   ⟨checkHistory_sound ac h i outs hlen, checkHistory_complete ac h i outs⟩
 
+/-! ### cycles abandoned with `Clear` (fourth wave)
+
+`checkSegs` / `programStatementA` (what the drivers of C11 and C13 evaluate on a program in which
+some cycles are given up with `Clear` before `Finalise`) are the proved-sound `checkHistory` /
+`programStatement` when no cycle is abandoned: the extension demands nothing new of use cycles. -/
+
+/-- C11, "whatever earlier cycles did": on a history without abandoned cycles the segment checker
+    is the history checker -/
+theorem checkSegs_cycles (ac : Bool) (h : List Cycle) (i : Nat) (outs : List Out) :
+    checkSegs ac (h.map Seg.cyc) i outs = checkHistory ac h i outs := by
+  induction h generalizing i outs with
+  | nil => rfl
+  | cons cy rest ih =>
+    simp only [List.map_cons, checkSegs, checkHistory]
+    split <;> simp_all
+
+/-- the executable statement for programs with abandoned cycles coincides with `programStatement`
+    on programs without them -/
+theorem programStatementA_cycles (ac : Bool) (h : List Cycle) (ops : List Op) (outs : List Out) :
+    programStatementA ac (h.map Seg.cyc) ops outs = programStatement ac h ops outs := by
+  simp only [programStatementA, programStatement, historyStatement, checkSegs_cycles]
+
 end Biogo.Properties.C11_checker
